@@ -131,6 +131,31 @@ def check_case(case, stats=None):
             fail("concatenation_wrong", f"{len(whole)} bytes served for an image of {len(image)}")
         if O.crc16_modbus(whole) != crc:
             fail("crc_mismatch", f"CRC-16/MODBUS of the served bytes {O.crc16_modbus(whole):#06x} != advertised {crc:#06x}")
+    # a block request names the firmware it wants: with a second image stored for another node, a
+    # request for THAT firmware must be answered with its bytes and its (type, version) - or not at all
+    if case.get("second"):
+        fw2 = (fw[0] ^ 1, (fw[1] + 1) % 65536)
+        image2 = lockstep.image_bytes({"len": case["second"], "seed": case["seed"] + 1, "fill": "random"})
+        drv.line("200;255;0;0;17;2.0")
+        drv.update_fw([200], fw2[0], fw2[1], image=image2)
+        total2 = O.allowed_paddings(len(image2))
+        for blk in (0, max(0, len(image2) // 16 - 1)):
+            replies = fetch(drv, nodes[0], O.words_hex(fw2[0], fw2[1], blk), 2)
+            for rep in replies:
+                if rep[2] == 4 and rep[4] == 3:
+                    try:
+                        O.check_block(image2, fw2, blk, rep[5])
+                    except ValueError as exc:
+                        fail("block_of_other_firmware_wrong", f"node {nodes[0]} (scheduled {fw}) asked for block {blk} of firmware {fw2}: {exc}")
+        del total2
+        # and the scheduled firmware is still served unchanged afterwards
+        replies = fetch(drv, nodes[0], O.words_hex(fw[0], fw[1], 0), 2)
+        if len(replies) != 1:
+            fail("block_response_missing", f"block 0 after a request for another firmware: {replies}")
+        try:
+            O.check_block(image, fw, 0, replies[0][5], blocks)
+        except ValueError as exc:
+            fail("block_response_wrong", f"after a request for another firmware: {exc}")
     # beyond the end
     for blk in (blocks, blocks + 1, blocks + 7, 65535):
         if blk > 65535:
@@ -168,6 +193,8 @@ def make_case(length, rnd, full=None, via_hex=False):
         "full": (length <= 4096) if full is None else full,
         "flavour": rnd.choice(["sync", "async"]),
     }
+    if rnd.random() < 0.3:
+        case["second"] = rnd.choice([16, 100, 128, 300])
     if via_hex:
         case["via_hex"] = True
         case["hexopts"] = {
